@@ -156,4 +156,136 @@ theorem lbGo_noSpace (T : LbTables) {nS nK sp : Nat} {bad badCls : Nat → Bool}
         · exact ho
       exact ih _ _ _ ⟨hstep.2, hstep.1⟩ (fun x hx => hs x (by simp [hx])) a' c b hcs hmem
 
+
+/-! ### restart invariance: a part of the text between two opportunities, analysed alone -/
+
+
+/-- restart invariance of a pair table: wherever a break is allowed, the scan continues as if the
+    text started there -/
+def RestartInv (T : LbTables) (nS nK : Nat) : Prop :=
+  ∀ st, st < nS → ∀ k, k < nK → T.allowed (T.pair st k) = true → T.next (T.pair st k) = T.next (T.pair T.sot k)
+
+/-- membership in `lbGo` beyond the first character only depends on the state after it -/
+theorem lbGo_cons_tail (T : LbTables) (st : Nat) (zw : Bool) (i : Nat) (c : Char) (cs : Text) (o : Nat)
+    (ho : i < o) :
+    o ∈ lbGo T st zw i (c :: cs) ↔
+      o ∈ lbGo T (T.next (T.pair st (T.cls c))) (T.cls c == T.zwj) (i + c.utf8Size) cs := by
+  simp only [lbGo]
+  split
+  · constructor
+    · intro h
+      rcases List.mem_cons.mp h with h | h
+      · omega
+      · exact h
+    · intro h; exact List.mem_cons_of_mem _ h
+  · exact Iff.rfl
+
+/-- shifting the start offset shifts every reported offset -/
+theorem lbGo_shift (T : LbTables) (st : Nat) (zw : Bool) (i d : Nat) (s : Text) (o : Nat) :
+    o ∈ lbGo T st zw i s ↔ o + d ∈ lbGo T st zw (i + d) s := by
+  induction s generalizing st zw i with
+  | nil =>
+    simp only [lbGo]
+    split <;> simp <;> omega
+  | cons c cs ih =>
+    simp only [lbGo]
+    have e : i + d + c.utf8Size = i + c.utf8Size + d := by omega
+    split
+    · simp only [List.mem_cons, e]
+      rw [← ih]
+      constructor
+      · rintro (h | h)
+        · left; omega
+        · right; exact h
+      · rintro (h | h)
+        · left; omega
+        · right; exact h
+    · rw [e, ← ih]
+
+
+/-- the scan state after a prefix -/
+def lbState (T : LbTables) : Nat → Bool → Text → Nat × Bool
+  | st, zw, [] => (st, zw)
+  | st, _, c :: cs => lbState T (T.next (T.pair st (T.cls c))) (T.cls c == T.zwj) cs
+
+/-- offsets at or beyond the end of a prefix depend on the prefix only through the state after it -/
+theorem lbGo_append (T : LbTables) (st : Nat) (zw : Bool) (i : Nat) (A s : Text) (o : Nat)
+    (ho : i + blen A ≤ o) :
+    o ∈ lbGo T st zw i (A ++ s) ↔
+      o ∈ lbGo T (lbState T st zw A).1 (lbState T st zw A).2 (i + blen A) s := by
+  induction A generalizing st zw i with
+  | nil => simp [lbState, blen]
+  | cons a A ih =>
+    have hpos := utf8Size_pos' a
+    simp only [blen] at ho
+    rw [List.cons_append, lbGo_cons_tail T st zw i a (A ++ s) o (by omega)]
+    rw [ih _ _ (i + a.utf8Size) (by omega)]
+    simp only [lbState, blen]
+    rw [Nat.add_assoc]
+
+/-- table facts for restart invariance: states stay in range, classes are columns -/
+structure RestartFacts (T : LbTables) (nS nK : Nat) : Prop where
+  inv : RestartInv T nS nK
+  stay : ∀ st, st < nS → ∀ k, k < nK → T.next (T.pair st k) < nS
+  clsLt : ∀ c, T.cls c < nK
+  sot : T.sot < nS
+
+theorem lbState_lt (T : LbTables) {nS nK : Nat} (F : RestartFacts T nS nK) (st : Nat) (zw : Bool) (A : Text)
+    (h : st < nS) : (lbState T st zw A).1 < nS := by
+  induction A generalizing st zw with
+  | nil => exact h
+  | cons a A ih => exact ih _ _ (F.stay st h _ (F.clsLt a))
+
+/-- **restart invariance of `linebreaks`**: if an opportunity is reported at the start of a suffix,
+    the opportunities inside the suffix are those of the suffix analysed on its own — a word of the
+    Unicode separator keeps its (lack of) inner opportunities when it is wrapped again alone -/
+theorem ownOpps_restart (T : LbTables) {nS nK : Nat} (F : RestartFacts T nS nK) (A : Text) (c : Char) (l : Text)
+    (h : blen A ∈ ownOpps T (A ++ c :: l)) (o : Nat) (ho : blen A < o) :
+    o ∈ ownOpps T (A ++ c :: l) ↔ o - blen A ∈ ownOpps T (c :: l) := by
+  unfold ownOpps at h ⊢
+  have hA := lbGo_append T T.sot false 0 A (c :: l)
+  simp only [Nat.zero_add] at hA
+  rw [hA (blen A) (Nat.le_refl _)] at h
+  rw [hA o (Nat.le_of_lt ho)]
+  generalize hst : lbState T T.sot false A = S at h ⊢
+  have hlt : S.1 < nS := by rw [← hst]; exact lbState_lt T F _ _ A F.sot
+  have hpos := utf8Size_pos' c
+  -- the break before `c` is the head emission
+  have hbrk : T.allowed (T.pair S.1 (T.cls c)) = true := by
+    simp only [lbGo] at h
+    split at h
+    · rename_i hb
+      simp only [LbTables.isBreak, Bool.and_eq_true] at hb
+      exact hb.1
+    · have := lbGo_ge T _ _ _ l _ h
+      omega
+  have hnext := F.inv S.1 hlt (T.cls c) (F.clsLt c) hbrk
+  rw [lbGo_cons_tail T S.1 S.2 (blen A) c l o ho, hnext]
+  have hsh := lbGo_shift T T.sot false 0 (blen A) (c :: l) (o - blen A)
+  rw [hsh]
+  have e : o - blen A + blen A = o := by omega
+  rw [e, Nat.zero_add, lbGo_cons_tail T T.sot false (blen A) c l o ho]
+
+
+/-- offsets strictly inside a prefix do not depend on what follows it -/
+theorem lbGo_prefix (T : LbTables) (st : Nat) (zw : Bool) (i : Nat) (l B : Text) (o : Nat)
+    (ho : o < i + blen l) : o ∈ lbGo T st zw i (l ++ B) ↔ o ∈ lbGo T st zw i l := by
+  induction l generalizing st zw i with
+  | nil =>
+    simp only [blen, Nat.add_zero] at ho
+    constructor
+    · intro h; have := lbGo_ge T _ _ _ _ o h; omega
+    · intro h; have := lbGo_ge T _ _ _ _ o h; omega
+  | cons a l ih =>
+    simp only [blen] at ho
+    simp only [List.cons_append, lbGo]
+    have := ih (T.next (T.pair st (T.cls a))) (T.cls a == T.zwj) (i + a.utf8Size) (by omega)
+    split
+    · simp only [List.mem_cons, this]
+    · exact this
+
+theorem ownOpps_prefix (T : LbTables) (l B : Text) (o : Nat) (ho : o < blen l) :
+    o ∈ ownOpps T (l ++ B) ↔ o ∈ ownOpps T l :=
+  lbGo_prefix T _ _ 0 l B o (by omega)
+
 end TW
